@@ -42,6 +42,9 @@ def constructs():
         ("lit-date", ("lit", "date", "2020-01-01"), "Date"), ("lit-time", ("lit", "time", "12:30:00"), "Time"),
         ("lit-datetime", ("lit", "datetime", "2020-01-01T10:00:00Z"), "DateTime"),
         ("lit-duration", ("lit", "duration", "P1DT2H"), "Duration"),
+        ("lit-duration-zero", ("lit", "duration", "PT0S"), "Duration"),
+        ("lit-duration-zero-days", ("lit", "duration", "-P0DT0H"), "Duration"),
+        ("lit-duration-all-parts", ("lit", "duration", "P1Y2M3DT4H5M6.5S"), "Duration"),
         ("field", I1, "Int"), ("neg", ("un", "neg", I1), "Int"),
         ("path", ("path", ident("owner"), "name"), "Str"), ("path-int", ("path", ident("owner"), "age"), "Int"),
         ("path-deep", ("path", ("path", ident("owner"), "org"), "name"), "Str"),
@@ -459,6 +462,19 @@ def all_cells():
                 yield {"construct": cname, "position": pname, "backend": b, "term": to_json(pred)}
 
 
+# names that are fields of an *enclosing* model but not of the lambda's child model (Part / Tag)
+OUTER_ONLY = ["i1", "s1", "owner", "k", "parts"]
+
+
+def outer_field_cells():
+    for name in OUTER_ONLY:
+        for coll in ("parts", "tags"):
+            pred = ("lambda", ident(coll), "any", "p", ("cmp", "eq", ("path", ident("p"), name), ("lit", "int", "1")))
+            yield {"mode": "unknown-field", "field": name, "position": "lambda-body-outer-field", "term": to_json(pred)}
+            pred = ("lambda", ident(coll), "all", "p", ("call", "contains", (), (("path", ident("p"), name), ("lit", "str", "x"))))
+            yield {"mode": "unknown-field", "field": name, "position": "lambda-body-outer-field-fn", "term": to_json(pred)}
+
+
 UNKNOWN = ["nosuch", "metadata", "registry", "__table__", "__tablename__", "__class__", "__init__", "__mapper__",
            "_sa_class_manager", "__doc__", "__dict__", "__module__", "Owner", "id2"]
 
@@ -474,7 +490,9 @@ def unknown_cells():
                             ("null-test", ("cmp", "eq", f, ("lit", "null", ""))),
                             ("under-not", ("un", "not", ("cmp", "eq", f, ("lit", "int", "1")))),
                             ("path-attr", ("cmp", "eq", ("path", ident("owner"), name), ("lit", "int", "1"))),
-                            ("lambda-body", ("lambda", ident("parts"), "any", "p", ("cmp", "eq", ("path", ident("p"), name), ("lit", "int", "1"))))]:
+                            ("lambda-body", ("lambda", ident("parts"), "any", "p", ("cmp", "eq", ("path", ident("p"), name), ("lit", "int", "1")))),
+                            ("nested-lambda-body", ("lambda", ident("tags"), "any", "x", ("lambda", ("path", ident("x"), "items"), "all", "w",
+                                                                                              ("cmp", "eq", ("path", ident("w"), name), ("lit", "int", "1")))))]:
             yield {"mode": "unknown-field", "field": name, "position": pname, "term": to_json(pred)}
 
 
@@ -531,7 +549,7 @@ def run_task(task, seed, acc):
 
     if task["kind"] == "matrix":
         idx = 0
-        for gen in (all_cells, unknown_cells, identity_cells):
+        for gen in (all_cells, unknown_cells, outer_field_cells, identity_cells):
             for case in gen():
                 idx += 1
                 if idx % task["k"] == task["i"]:
